@@ -109,12 +109,12 @@ theorem reseat_spec (thr : Rat) (hthr : 0 ≤ thr) (l : List BcSnap) (hd : Dom t
       induction rest generalizing b0 with
       | nil => rfl
       | cons b t ih => simp [distsOf, ih b]
-    refine ⟨h :: t, ?_, hseat, isort_sorted _ hsort, ?_, ?_⟩
+    refine ⟨h :: t, ?_, hseat, rs_isort_sorted _ hsort, ?_, ?_⟩
     · rw [reseat_eq_ref thr hthr b0 rest hs hA hH, hseq]
     · rw [hlenp] at hl1 hl2
       simp only [lengthOkB, List.length_cons, Bool.and_eq_true, decide_eq_true_eq] at hl1 hl2 ⊢
       omega
-    · rw [isort_sorted _ hs, isort_sorted _ hsort, inPts_eq]; exact hint
+    · rw [rs_isort_sorted _ hs, rs_isort_sorted _ hsort, inPts_eq]; exact hint
 
 /-- every tempo point of the result lies on a measure line -/
 theorem reseat_seated (thr : Rat) (hthr : 0 ≤ thr) (l out : List BcSnap) (hd : Dom thr l) (h : reseat l thr = .ok out) :
